@@ -54,7 +54,7 @@ pub fn main(tier: Tier, seed: u64) -> i32 {
         rep.machinery(e);
         return rep.finish();
     }
-    let tapes = if tier.is_thorough() { 64 } else { 6 };
+    let tapes = if tier.is_thorough() { 64 } else { 12 };
     // public configurations
     struct Pub {
         name: String,
